@@ -401,6 +401,9 @@ func engineStatic(which string) engineFn {
 			if which == "C03" && g.coin(0.1) {
 				size = 200 + g.r.Intn(800) // many rows: result slices are re-allocated while being built
 			}
+			if which == "C03" {
+				g.glueP = 0.35
+			}
 			f := g.wellFormed(size)
 			inherit := g.coin(0.5)
 			zones := feedZones(f)
@@ -482,6 +485,10 @@ func engineStatic(which string) engineFn {
 							"location_type": "0", "parent_station": "", "stop_timezone": "", "wheelchair_boarding": "0", "platform_code": ""})
 					}
 					st.rows = append(fill, st.rows...)
+					for _, x := range [][2]string{{"big-station", ""}, {"big-platform-1", "big-station"}, {"big-platform-2", "big-station"}, {"big-area", "big-platform-1"}} {
+						st.rows = append(st.rows, srow{"stop_id": x[0], "stop_code": "", "stop_name": x[0], "stop_desc": "", "stop_lat": "1.5", "stop_lon": "2.5", "zone_id": "", "stop_url": "",
+							"location_type": map[bool]string{true: "1", false: "0"}[x[1] == ""], "parent_station": x[1], "stop_timezone": "", "wheelchair_boarding": "0", "platform_code": ""})
+					}
 					mb := renderFeed(nil, canonicalPresentation(big), big)
 					if rb := runStatic(mb, false, inherit); rb.err == nil && !rb.cr.panicked && !rb.cr.hung {
 						ctx.evaluations++
